@@ -204,6 +204,9 @@ class ShapeHost(Host):
         tree = self.slide.element.find("{http://schemas.openxmlformats.org/presentationml/2006/main}cSld/{http://schemas.openxmlformats.org/presentationml/2006/main}spTree")
         P = "http://schemas.openxmlformats.org/presentationml/2006/main"
         A = "http://schemas.openxmlformats.org/drawingml/2006/main"
+        from pptx.oxml import parse_xml
+        XF = '<a:xfrm><a:off x="0" y="0"/><a:ext cx="10" cy="10"/></a:xfrm>'
+        els = []
         for t in used:
             if t == tok("canon", 1):
                 continue                       # p:spTree's own cNvPr
@@ -212,17 +215,35 @@ class ShapeHost(Host):
                 # an a16:creationId extension under an existing shape's cNvPr: an @id that is not a shape id (what PowerPoint 2016+ writes)
                 xml = ('<p:sp xmlns:p="%s" xmlns:a="%s"><p:nvSpPr><p:cNvPr id="900" name="Ext"><a:extLst><a:ext uri="{FF2B5EF4-FFF2-40B4-BE49-F238E27FC236}">'
                        '<a16:creationId xmlns:a16="http://schemas.microsoft.com/office/drawing/2014/main" id="%s"/></a:ext></a:extLst></p:cNvPr>'
-                       '<p:cNvSpPr/><p:nvPr/></p:nvSpPr><p:spPr/></p:sp>' % (P, A, s))
-                el = etree.fromstring(xml)
+                       '<p:cNvSpPr/><p:nvPr/></p:nvSpPr><p:spPr>%s</p:spPr></p:sp>' % (P, A, s, XF))
+                el = parse_xml(xml)
                 # the carrier shape's own id must not disturb the universe: it takes the alpha token's place only
                 el.find("{%s}nvSpPr/{%s}cNvPr" % (P, P)).attrib.pop("id")
             else:
-                el = etree.fromstring('<p:sp xmlns:p="%s"><p:nvSpPr><p:cNvPr id="%s" name="S%s"/><p:cNvSpPr/><p:nvPr/></p:nvSpPr><p:spPr/></p:sp>' % (P, s, s))
-            tree.append(el)
-        self.tree = tree
+                el = parse_xml('<p:sp xmlns:p="%s" xmlns:a="%s"><p:nvSpPr><p:cNvPr id="%s" name="S%s"/><p:cNvSpPr/><p:nvPr/></p:nvSpPr><p:spPr>%s</p:spPr></p:sp>'
+                               % (P, A, s, s, XF))
+            els.append(el)
+        # a group without an @id of its own (so that it adds nothing to the universe): shapes are added INTO it by allocIn; with
+        # ord = "nested" it also holds the pre-existing shapes, the last of them inside an mc:AlternateContent fallback
+        grp = parse_xml('<p:grpSp xmlns:p="%s"><p:nvGrpSpPr><p:cNvPr name="Holder"/><p:cNvGrpSpPr/><p:nvPr/></p:nvGrpSpPr><p:grpSpPr/></p:grpSp>' % P)
+        if getattr(self, "ord", "asc") == "nested":
+            for el in els[:-1]:
+                grp.append(el)
+            ac = etree.fromstring('<mc:AlternateContent xmlns:mc="http://schemas.openxmlformats.org/markup-compatibility/2006"><mc:Choice Requires="a14"/>'
+                                  '<mc:Fallback/></mc:AlternateContent>')
+            ac[1].append(els[-1])
+            grp.append(ac)
+        else:
+            for el in els:
+                tree.append(el)
+        tree.append(grp)
+        self.tree, self.grp = tree, grp
 
     def alloc(self, op):
         from pptx.util import Emu
+        if op == "allocIn":
+            from pptx.shapes.group import GroupShape
+            return str(GroupShape(self.grp, self.slide.shapes).shapes.add_textbox(Emu(0), Emu(0), Emu(10), Emu(10)).shape_id)
         if op == "allocGap":
             return str(self.slide.shapes.add_group_shape().shape_id)
         return str(self.slide.shapes.add_textbox(Emu(0), Emu(0), Emu(10), Emu(10)).shape_id)
@@ -233,10 +254,10 @@ class ShapeHost(Host):
     def release(self, t):
         s = self.spell(t)
         for el in self.tree.xpath(".//*[@id='%s']" % s):
-            sp = el
-            while sp.getparent() is not self.tree:
+            sp = el      # the shape element that carries the identifier (wherever it sits: in the tree, in the holder group, in a fallback)
+            while sp.tag.rsplit("}", 1)[-1] not in ("sp", "pic", "cxnSp", "graphicFrame", "grpSp") or sp is self.grp:
                 sp = sp.getparent()
-            self.tree.remove(sp)
+            sp.getparent().remove(sp)
             return
 
     def ids(self):
@@ -287,6 +308,7 @@ def run_history(hid: str, hist: list) -> dict:
     h = HOSTS[init["kind"]]()
     used = init["used"]
     known = {h.spell(t): t for t in used}
+    h.ord = init.get("ord", "asc")
     h.start(used)
 
     def observed():
@@ -295,7 +317,7 @@ def run_history(hid: str, hist: list) -> dict:
     for a in hist[1:]:
         new, raised = NONE, ""
         try:
-            if a["op"] in ("alloc", "allocGap"):
+            if a["op"] in ("alloc", "allocGap", "allocIn"):
                 s = h.alloc(a["op"])
                 new = h.parse(str(s), {})
                 if new["c"] == "canon":
